@@ -839,6 +839,39 @@ def pairs_space(pool, small, full=True):
             yield ['Place', [[a, 9], b], 3, 0]
 
 
+# operator patterns whose operands are finite, non-constant patterns of
+# differing lengths (Punop/Pnarop have an __embed__ of their own, Pbinop is
+# embedded through its stream: both paths must be element-wise and end with
+# the shortest operand also when *embedded* by another pattern)
+OPKIDS = [
+    ['narop', 'clip', ['Pseq', [1, 5, 9, 13], 1, 0], ['Pseq', [2, 6, 10], 1, 0],
+     ['Pseq', [3, 7, 11, 15, 19], 1, 0]],
+    ['narop', 'clip', ['Pseq', [1, 5, 9], 1, 0], 2, ['Pseq', [6, 3], 1, 0]],
+    ['narop', 'clip', ['Pseq', [1, 5, 9], I, 0], ['Pseq', [2, 6, 10], 1, 0],
+     7],
+    ['narop', 'clip', ['Pseries', 0, 3, 4], ['Pseq', [4, 1], 2, 0],
+     ['Pseries', 5, 1, 3]],
+    ['unop', 'neg', ['Pseq', [1, 2, 3], 1, 0]],
+    ['unop', 'abs', ['Pseries', -1, 1, 3]],
+    ['binop', 'sub', ['Pseq', [10, 20, 30], 1, 0], ['Pseq', [1, 2], 1, 0]],
+    ['binop', 'sub', 10, ['Pseq', [1, 2, 3], 1, 0]],
+    ['binop', 'mul', ['Pseq', [1, 2], I, 0], ['Pseries', 1, 1, 3]],
+]
+
+
+def opkids_space():
+    """Every operator child at top level, under each of the 8 embedding
+    constructors, used twice as one shared object, and under every
+    single-child constructor."""
+    for x in OPKIDS:
+        yield x
+        yield from embedders_over(x)
+        yield ['Pseq', [x, x], 2, 0]
+        yield ['Pser', [x, 9, x], 4, 1]
+        yield ['Pswitch', [x, x], ['Pseq', [0, 1, 0], 1, 0]]
+        yield from filters_over(x)
+
+
 def extras_space():
     """Pattern-valued parameters and composites that do not fit the scheme."""
     for x in R:
@@ -896,6 +929,8 @@ def _generate(tier):
         add('depth2', e)
     for e in extras_space():
         add('depth2', e)
+    for e in opkids_space():
+        add('depth' + str(min(depth(e), 3)) + '-opchild', e)
     if tier == 'thorough':
         for x in d1:
             for e in filters_over(x):
